@@ -765,8 +765,8 @@ Section Eval.
           | _ => stuck "postfix"
           end
       | EAssign x a =>
-          (* the value of an assignment expression is the value stored (an int assigned to a long is a long) *)
-          do (v, s1) <- ev s a; do s2 <- write_name x v s1; do w <- read_name x s2; Ok (w, s2)
+          (* the value (and static type) of an assignment expression is that of its right-hand side *)
+          do (v, s1) <- ev s a; do s2 <- write_name x v s1; Ok (v, s2)
       | ENew c args =>
           match cls c with
           | None => stuck "unknown class"
